@@ -352,26 +352,70 @@ func (r *runner) runBlock(bi int, blk *Block) {
 		r.where = w
 	}
 	ci := 0
-	stepCopy := func() {
-		if cp != nil && ci < len(blk.CopyTxs) {
-			r.runTx(cp, bi, blk.CopyAt+ci, &blk.CopyTxs[ci], cpBx, "copy-")
-			ci++
-			both()
-		}
-	}
 	for ti := range blk.Txs {
-		if ti == blk.CopyAt {
+		midPending := ti == blk.CopyAt && blk.CopyMid >= 0
+		if ti == blk.CopyAt && !midPending {
 			fork()
 		}
-		stepCopy()
-		r.runTx(main, bi, ti, &blk.Txs[ti], bx, "")
+		mt := &txRun{x: main, tx: &blk.Txs[ti], bi: bi, ti: ti, bx: bx}
+		r.txBegin(mt)
+		var ct *txRun
+		if cp != nil && ci < len(blk.CopyTxs) {
+			ct = &txRun{x: cp, tx: &blk.CopyTxs[ci], bi: bi, ti: blk.CopyAt + ci, bx: cpBx, tag: "copy-"}
+			r.txBegin(ct)
+			ci++
+		}
+		// Copy() in the middle of a transaction, at call depth 0: the copy continues
+		// the same transaction with its own operations.
+		midFork := func() {
+			midPending = false
+			r.where = fmt.Sprintf("block %d tx %d Copy before op %d", bi, ti, mt.next)
+			cp = &exec{m: r.m.Fork(), st: st.Copy(), run: r, name: "copy"}
+			if bx != nil {
+				cpBx = bx.copy()
+			}
+			r.res.Probe("copy-taken-mid-tx")
+			cont := &Tx{}
+			if len(blk.CopyTxs) > 0 {
+				cont = &blk.CopyTxs[0]
+				ci = 1
+			}
+			ct = &txRun{x: cp, tx: cont, bi: bi, ti: ti, bx: cpBx, tag: "copy-"}
+		}
+		for {
+			if midPending && mt.next >= blk.CopyMid && main.m.Depth() == 0 {
+				midFork()
+			}
+			a := ct != nil && r.txStep(ct)
+			b := r.txStep(mt)
+			if !a && !b {
+				if midPending {
+					for main.m.Depth() > 0 {
+						main.do(Op{K: "keep"})
+					}
+					midFork()
+					continue
+				}
+				break
+			}
+		}
+		if ct != nil {
+			r.txEnd(ct)
+		}
+		r.txEnd(mt)
 		both()
 	}
-	if blk.CopyAt >= len(blk.Txs) && blk.CopyAt >= 0 {
+	if blk.CopyAt >= len(blk.Txs) && blk.CopyAt >= 0 && cp == nil {
 		fork()
 	}
 	for cp != nil && ci < len(blk.CopyTxs) {
-		stepCopy()
+		ct := &txRun{x: cp, tx: &blk.CopyTxs[ci], bi: bi, ti: blk.CopyAt + ci, bx: cpBx, tag: "copy-"}
+		r.txBegin(ct)
+		for r.txStep(ct) {
+		}
+		r.txEnd(ct)
+		ci++
+		both()
 	}
 
 	// block end: IntermediateRoot, Commit, both equal to the model's root
@@ -450,17 +494,40 @@ func (r *runner) runBlock(bi int, blk *Block) {
 	}
 }
 
-func (r *runner) runTx(x *exec, bi, ti int, tx *Tx, bx *balBlock, tag string) {
-	r.where = fmt.Sprintf("block %d %stx %d begin", bi, tag, ti)
-	x.beginTx(tx, bi, ti)
-	for oi, op := range tx.Ops {
-		r.where = fmt.Sprintf("block %d %stx %d op %d %+v", bi, tag, ti, oi, op)
-		if !x.do(op) {
-			r.res.Probe("op-skipped")
-		} else {
-			r.res.Probe("op:" + op.K)
-		}
+// txRun is one transaction being executed on one StateDB; two of them (original
+// and copy) can be advanced alternately, operation by operation.
+type txRun struct {
+	x      *exec
+	tx     *Tx
+	bi, ti int
+	bx     *balBlock
+	tag    string
+	next   int
+}
+
+func (r *runner) txBegin(t *txRun) {
+	r.where = fmt.Sprintf("block %d %stx %d begin", t.bi, t.tag, t.ti)
+	t.x.beginTx(t.tx, t.bi, t.ti)
+}
+
+// txStep executes the next planned operation; false when none is left.
+func (r *runner) txStep(t *txRun) bool {
+	if t.next >= len(t.tx.Ops) {
+		return false
 	}
+	op := t.tx.Ops[t.next]
+	r.where = fmt.Sprintf("block %d %stx %d op %d %+v", t.bi, t.tag, t.ti, t.next, op)
+	t.next++
+	if !t.x.do(op) {
+		r.res.Probe("op-skipped")
+	} else {
+		r.res.Probe("op:" + op.K)
+	}
+	return true
+}
+
+func (r *runner) txEnd(t *txRun) {
+	x, tx, bi, ti, bx, tag := t.x, t.tx, t.bi, t.ti, t.bx, t.tag
 	r.where = fmt.Sprintf("block %d %stx %d end", bi, tag, ti)
 	w0 := x.m.committed // world at tx start
 	for x.m.Depth() > 0 {
